@@ -181,11 +181,25 @@ func selfSignedCert(pub, priv interface{}) []byte {
 	return pem.EncodeToMemory(&pem.Block{Type: "CERTIFICATE", Bytes: der})
 }
 
+// issuedCert: a certificate for `pub` issued by a made-up ECDSA CA (so that its signature algorithm is an ECDSA one whatever the subject key is).
+func issuedCert(pub interface{}) []byte {
+	caKey, _ := ecdsa.GenerateKey(elliptic.P256(), rand.Reader)
+	ca := x509.Certificate{SerialNumber: big.NewInt(time.Now().UnixNano()), Subject: pkix.Name{CommonName: "hostile CA"}, NotBefore: time.Now().Add(-time.Hour), NotAfter: time.Now().Add(time.Hour), IsCA: true, BasicConstraintsValid: true, KeyUsage: x509.KeyUsageCertSign}
+	tmpl := x509.Certificate{SerialNumber: big.NewInt(time.Now().UnixNano() + 1), Subject: pkix.Name{CommonName: "hostile leaf"}, NotBefore: time.Now().Add(-time.Hour), NotAfter: time.Now().Add(time.Hour)}
+	der, err := x509.CreateCertificate(rand.Reader, &tmpl, &ca, pub, caKey)
+	if err != nil {
+		panic("harness: cannot create certificate: " + err.Error())
+	}
+	return pem.EncodeToMemory(&pem.Block{Type: "CERTIFICATE", Bytes: der})
+}
+
 type foreignKeys struct {
 	rsaCert, edCert, p384Cert []byte
-	rsaKey                    *rsa.PrivateKey
-	edKey                     ed25519.PrivateKey
-	p384Key                   *ecdsa.PrivateKey
+	// the same RSA / Ed25519 keys certified by an ECDSA CA
+	rsaIssued, edIssued []byte
+	rsaKey              *rsa.PrivateKey
+	edKey               ed25519.PrivateKey
+	p384Key             *ecdsa.PrivateKey
 }
 
 func newForeignKeys() *foreignKeys {
@@ -197,6 +211,8 @@ func newForeignKeys() *foreignKeys {
 	f.edCert = selfSignedCert(pub, f.edKey)
 	f.p384Key, _ = ecdsa.GenerateKey(elliptic.P384(), rand.Reader)
 	f.p384Cert = selfSignedCert(&f.p384Key.PublicKey, f.p384Key)
+	f.rsaIssued = issuedCert(&f.rsaKey.PublicKey)
+	f.edIssued = issuedCert(pub)
 	return f
 }
 
